@@ -1,12 +1,33 @@
 (* One entry point for the harness: request (list Z) -> reply (list Z). *)
-From JP Require Import Base.Json Extract.Wire Model.Slice Spec.Slice.
+From JP Require Import Base.Json Extract.Wire Extract.WireAst Model.Slice Spec.Slice Model.Ast Model.Eval Spec.Sem.
 
 Definition iota_json (len : Z) : list json := map (fun k => JNum (NInt (Z.of_nat k))) (seq 0 (Z.to_nat len)).
 Definition enc_sel (r : list (Z * json)) : list Z := enc_list (fun p => fst p :: enc_json (snd p)) r.
 
+Definition mk_cfg (depth : nat) (rg : registry) (t : list rxrow) : envcfg :=
+  {| min_idx := - (2 ^ 53) + 1; max_idx := 2 ^ 53 - 1; max_depth := depth; reg := rg; rx := rx_lookup t |}.
+
+(* [3; depth; registry; rx table; query; value] *)
+Definition op_find (r : list Z) : list Z :=
+  match dec_nat r with Some (depth, r0) =>
+  match dec_registry r0 with Some (rg, r1) =>
+  match dec_list dec_rxrow r1 with Some (t, r2) =>
+  match dec_query r2 with Some (q, r3) =>
+  match dec_json r3 with Some (v, _) => enc_result (enc_list enc_node) (m_find (mk_cfg depth rg t) q v)
+  | None => bad_request end | None => bad_request end | None => bad_request end | None => bad_request end
+  | None => bad_request end.
+Definition op_sem (r : list Z) : list Z :=
+  match dec_registry r with Some (rg, r1) =>
+  match dec_list dec_rxrow r1 with Some (t, r2) =>
+  match dec_query r2 with Some (q, r3) =>
+  match dec_json r3 with Some (v, _) => 0 :: enc_list enc_node (sem rg (rx_lookup t) q v)
+  | None => bad_request end | None => bad_request end | None => bad_request end | None => bad_request end.
+
 (* opcodes: model side 1..99, specification side 101..199 *)
 Definition dispatch (req : list Z) : list Z :=
   match req with
+  | 3 :: r => op_find r
+  | 103 :: r => op_sem r
   | 7 :: len :: r =>        (* slice selector on [0, 1, ..., len-1] *)
     match dec_opt dec_z r with Some (s, r1) =>
     match dec_opt dec_z r1 with Some (e, r2) =>
